@@ -27,7 +27,9 @@ CLAIM = dict(
          "the envelope layer R1 (records, nested records, grouped members, varint sign-magnitude), framing and the "
          "registry invariant; UTF-8/surrogateescape S1/S2; F1, the field-type layer: _unpack(_pack(v)) = v for every kind "
          "of field (text, integers, booleans, floats, bytes, digests via hex, paths, commands, addresses, networks, typed "
-         "lists) and every well-formed value. Tie: wire constants regenerated from packer.py/stream.py/"
+         "lists) and every well-formed value; C01_stream_roundtrip_failed_writes: the stream theorem for histories in "
+         "which writes raise after any number of descriptor registrations and the caller carries on (the model's "
+         "writeHist is compared byte for byte with the implementation on C03's failing-write histories). Tie: wire constants regenerated from packer.py/stream.py/"
          "base.py; the executable model writes the *same bytes* as RecordStreamWriter for every generated record "
          "sequence (all serialisable field types, scalar and list, nested and grouped) and reads the implementation's "
          "bytes to the same packed records; real-code oracle compares deep observations before write / after read.",
